@@ -75,21 +75,21 @@ fn c03_blk_name_other() {
     kani::cover!(true, "evaluated");
 }
 
-// read_at: ghost file of 200 symbolic bytes, XOR-ed with a symbolic 2-byte key; two reads of an 81-byte
+// read_at: ghost file of 100 symbolic bytes, XOR-ed with a symbolic 2-byte key; two reads of an 81-byte
 // block (80-byte header + tx count 0) on ONE BlkFile at offsets that are concrete per instance
 // (symbolic offsets into the 200-byte file did not finish in 30 min; offset-generic seek/read logic with
 // symbolic positions is the C11 xor_window claim on small buffers). Buffer capacity = production 32 KiB.
 macro_rules! read_at {
     ($name:ident, $o1:expr, $o2:expr) => {
         #[kani::proof]
-        #[kani::unwind(204)]
+        #[kani::unwind(104)]
         #[kani::stub(crate::blockchain::proto::script::eval_from_bytes, stub_eval)]
         #[kani::stub(<bitcoin::hashes::sha256::HashEngine as bitcoin::hashes::HashEngine>::input, ghost::stub_engine_input)]
         #[kani::stub(<bitcoin::hashes::sha256d::Hash as bitcoin::hashes::Hash>::from_engine, ghost::stub_sha256d_fin)]
         fn $name() {
             ghost::init(kani::any());
             let key: [u8; 2] = kani::any();
-            const FL: usize = 200;
+            const FL: usize = 100;
             let mut plain: [u8; FL] = kani::any();
             plain[$o1 + 80] = 0; // both blocks declare zero transactions
             plain[$o2 + 80] = 0;
@@ -126,12 +126,12 @@ macro_rules! read_at {
         }
     };
 }
-//@ id=C03,C11 tier=quick name=c03_read_at_fwd timeout=1800 role=read_at bound=ghost-file-200B,xor-key-2,reads-at-offsets-5-then-110(forward-over-a-gap,odd-offset) mem=20 fn=BlkFile::read_block,BlkFile::open,XorReader::read,XorReader::seek,read_block,read_block_header
-read_at!(c03_read_at_fwd, 5, 110);
-//@ id=C03,C11 tier=quick name=c03_read_at_back timeout=1800 role=read_at bound=reads-at-offsets-100-then-8(backward-seek) mem=20
-read_at!(c03_read_at_back, 100, 8);
+//@ id=C03,C11 tier=thorough name=c03_read_at_fwd timeout=5400 role=read_at bound=ghost-file-100B,xor-key-2,reads-at-offsets-5-then-18(forward,odd-then-even-offset) mem=20 fn=BlkFile::read_block,BlkFile::open,XorReader::read,XorReader::seek,read_block,read_block_header
+read_at!(c03_read_at_fwd, 5, 18);
+//@ id=C03,C11 tier=thorough name=c03_read_at_back timeout=5400 role=read_at bound=reads-at-offsets-17-then-8(backward-seek) mem=20
+read_at!(c03_read_at_back, 17, 8);
 //@ id=C03,C11 tier=thorough name=c03_read_at_same timeout=1800 role=read_at bound=same-offset-twice mem=20
-read_at!(c03_read_at_same, 50, 50);
+read_at!(c03_read_at_same, 9, 9);
 
 // truncated file: the file ends at a symbolic byte inside [offset-4, offset+81): Err, no panic
 //@ id=C10,C14 tier=quick name=c10_read_truncated timeout=1800 role=read_fault bound=ghost-file(<=120B)-truncated-at-any-length,block-at-offset-20 mem=20 fn=BlkFile::read_block,read_block,read_block_header
